@@ -11,6 +11,7 @@ import H5V.Model.HtmlTokDriver
 import H5V.Model.HtmlTBDriver
 import H5V.Model.XmlTokDriver
 import H5V.Model.XmlJointDriver
+import H5V.Model.XmlTBHDriver
 import H5V.Spec.HtmlTokenizerDriver
 /- Model driver: reads one case per line (`engine<TAB>field<TAB>…`) on stdin, writes one result line. -/
 open H5V
@@ -22,6 +23,7 @@ def dispatch (line : String) : String :=
   | "meta" :: fields => Model.MetaDriver.runCase fields
   | "ser" :: fields => Model.HtmlSerDriver.runCase fields
   | "xmlser" :: fields => Model.XmlSerDriver.runCase fields
+  | ["xmltb", "trace", toks] => Model.XmlTBHDriver.runCase ["trace", toks]
   | "xmltb" :: fields => Model.XmlTBDriver.runCase fields
   | "tendril" :: fields => Model.TendrilDriver.runCase fields
   | "rcdom" :: fields => Model.DomDriver.runCase fields
